@@ -121,13 +121,16 @@ public:
             return;
         }
 
-        std::size_t const bin_x = shifted_x / parameters.bin_size_x();
+        T const position_x = shifted_x / parameters.bin_size_x();
 
-        if (bin_x >= parameters.bins_x())
+        // compare before converting: a huge or infinite position does not fit into an integer
+        if (!(position_x < T(parameters.bins_x())))
         {
             // point is right of the range that we are binning
             return;
         }
+
+        std::size_t const bin_x = position_x;
 
         std::size_t const new_index = indices_.at(index) + 2 * bin_x;
 
@@ -172,20 +175,25 @@ public:
             return;
         }
 
-        std::size_t const bin_x = shifted_x / parameters.bin_size_x();
+        T const position_x = shifted_x / parameters.bin_size_x();
 
-        if (bin_x >= parameters.bins_x())
+        // compare before converting: a huge or infinite position does not fit into an integer
+        if (!(position_x < T(parameters.bins_x())))
         {
             // point is right of the range that we are binning
             return;
         }
 
-        std::size_t const bin_y = shifted_y / parameters.bin_size_y();
+        std::size_t const bin_x = position_x;
 
-        if (bin_y >= parameters.bins_y())
+        T const position_y = shifted_y / parameters.bin_size_y();
+
+        if (!(position_y < T(parameters.bins_y())))
         {
             return;
         }
+
+        std::size_t const bin_y = position_y;
 
         std::size_t const new_index = indices_.at(index) + 2 * (bin_y *
             parameters.bins_x() + bin_x);
